@@ -298,6 +298,8 @@ def run(cx, out):
             out.floor('R05.1', 'derive sites in codec-fuzzer', n, 10)
         except factsmod.BuildError as e:
             out.note('codec-fuzzer could not be compiled under the driver: %s' % str(e)[:200])
+    from . import positive
+    positive.check(cx, out, 'C05')
 
 
 def c09_minlen(f):
